@@ -54,7 +54,10 @@ def bfs(sys_, p, ctx=None, max_states=None, on_new_state=None):
                 p.notes.append(f"BFS stopped by the time budget after {p.transitions} transitions, {p.states} states")
                 return seen
             o2 = sys_.clone(obj)
-            model2, vs, loop = sys_.step(model, o2, op, hist)
+            res = sys_.step(model, o2, op, hist)
+            model2, vs, loop = res[0], res[1], res[2]
+            if len(res) > 3 and res[3] is not None:
+                o2 = res[3]  # the operation returned a new object that becomes the state
             p.transitions += 1
             p.ev(sys_.nontrivial(model, op, model2))
             if vs:
@@ -96,7 +99,10 @@ def dfs_validate(sys_, p, seen, depth, ctx=None, op_filter=None):
                 p.capped = True
                 return
             o2 = sys_.clone(obj)
-            model2, vs, loop = sys_.step(model, o2, op, hist)
+            res = sys_.step(model, o2, op, hist)
+            model2, vs, loop = res[0], res[1], res[2]
+            if len(res) > 3 and res[3] is not None:
+                o2 = res[3]
             if vs or model2 is None or loop:
                 continue
             k2 = sys_.key(model2)
@@ -122,7 +128,10 @@ def replay_history(sys_, history, final_op=None):
     ops = list(history) + ([final_op] if final_op is not None else [])
     for op in ops:
         op = _tuplify(op)
-        model2, vs, loop = sys_.step(model, obj, op, hist)
+        res = sys_.step(model, obj, op, hist)
+        model2, vs, loop = res[0], res[1], res[2]
+        if len(res) > 3 and res[3] is not None:
+            obj = res[3]
         out.extend(vs)
         if vs:
             break
